@@ -269,3 +269,15 @@ Proof.
   rewrite E. apply (C2 s m bonds' R). intros i j. rewrite Hb. destruct (bond_find i j (snd m)) as [o|] eqn:F; [|reflexivity].
   simpl. destruct (bond_find_in_list i j _ o F) as (b & e & Hin). rewrite (Hbt b e o Hin). reflexivity.
 Qed.
+
+(** the premises of smiles_roundtrip_under_contract are satisfiable with a reader that does return molecules *)
+Example smiles_contract_ex :
+  let read := fun _ : unit => Some ex_mol in
+  let write := fun _ : list watom * list (N * N * Z) => Some tt in
+  (forall s m, read s = Some m -> wf_mol m = true /\ forall b e o, In (b, e, o) (snd m) -> bond_type o = o) /\
+  match graph_to_mol (mol_to_graph ex_mol false false) with Some w => write w | None => None end = Some tt.
+Proof.
+  cbv zeta. split.
+  - intros s m [= <-]. split; [reflexivity|]. simpl. intros b e o [E|[E|[]]]; inversion E; reflexivity.
+  - vm_compute. reflexivity.
+Qed.
